@@ -157,85 +157,127 @@ terms); the statements hold for every tree, every configuration and every name. 
 theorem ite_ne' {α : Type} {p : Prop} [Decidable p] {a b x : α} (ha : a ≠ x) (hb : b ≠ x) :
     (if p then a else b) ≠ x := by split <;> assumption
 
+/-- what `dispatch` can answer, with what the file system holds at the selector -/
+theorem dispatch_cases (c : SiteCfg) (st : StatFn) (sel : Str) :
+    dispatch c st sel = .url ∨ dispatch c st sel = .notFound ∨
+    (∃ kids, st sel = some (.dir kids) ∧ (dispatch c st sel = .gophermapDir ∨ dispatch c st sel = .dir)) ∨
+    (∃ d, st sel = some (.file d) ∧
+      (dispatch c st sel = .gophermapFile ∨ dispatch c st sel = .htmlFile ∨ dispatch c st sel = .file)) := by
+  unfold dispatch
+  by_cases hu : (c.url && urlSecureB c.urlForbidden sel) = true
+  · simp [hu]
+  · by_cases hs : secureB c.forbidden sel = true
+    · have hu' : (c.url && urlSecureB c.urlForbidden sel) = false := by simpa using hu
+      cases hst : st sel with
+      | none => simp [hu', hs, hst]
+      | some n =>
+        cases n with
+        | other => simp [hu', hs, hst]
+        | dir kids =>
+          right; right; left
+          refine ⟨kids, rfl, ?_⟩
+          simp only [hu', hs, Bool.false_eq_true, if_false, Bool.not_true]
+          split <;> simp
+        | file d =>
+          right; right; right
+          refine ⟨d, rfl, ?_⟩
+          simp only [hu', hs, Bool.false_eq_true, if_false, Bool.not_true]
+          split
+          · simp
+          · split <;> simp
+    · have hs' : secureB c.forbidden sel = false := by simpa using hs
+      have hu' : (c.url && urlSecureB c.urlForbidden sel) = false := by simpa using hu
+      simp [hu', hs']
+
 theorem dispatch_file_serves_document (c : SiteCfg) (st : StatFn) (sel : Str)
-    (h : dispatch c st sel = .file) : ∃ d, st sel = some (.file d) ∧ serve c st sel = .document d := by
-  have h0 := h
-  unfold dispatch at h
-  by_cases hs : secureB c.forbidden sel = true
-  · simp only [hs, Bool.not_true, Bool.false_eq_true, if_false] at h
-    cases hst : st sel with
-    | none => simp [hst] at h
-    | some n =>
-      cases n with
-      | file d => exact ⟨d, rfl, by simp [serve, h0, hst]⟩
-      | other => simp [hst] at h
-      | dir kids =>
-        simp only [hst] at h
-        exact absurd h (ite_ne' (by decide) (by decide))
-  · have : secureB c.forbidden sel = false := by simpa using hs
-    simp [this] at h
+    (h : dispatch c st sel = .file ∨ dispatch c st sel = .htmlFile) :
+    ∃ d, st sel = some (.file d) ∧ serve c st sel = .document d := by
+  rcases dispatch_cases c st sel with h1 | h1 | ⟨kids, _, h1⟩ | ⟨d, hst, _⟩
+  · rcases h with h | h <;> rw [h1] at h <;> cases h
+  · rcases h with h | h <;> rw [h1] at h <;> cases h
+  · rcases h with h | h <;> rcases h1 with h1 | h1 <;> rw [h1] at h <;> cases h
+  · refine ⟨d, hst, ?_⟩
+    unfold serve
+    rcases h with h | h <;> simp [h, hst]
+
+/-- the entry a handler gives for a selector carries that selector -/
+theorem entryAt_selector (c : SiteCfg) (st : StatFn) (sel : Str) (a : Entry) (ha : entryAt c st sel = some a) :
+    a.selector = sel := by
+  unfold entryAt at ha
+  split at ha
+  · simp only [Option.some.injEq] at ha; rw [← ha]
+  · cases hp : popAt c st sel with
+    | none => simp [hp] at ha
+    | some pi =>
+      simp only [hp, Option.map_some, Option.some.injEq] at ha
+      rw [← ha]
+      have key : ∀ e0 : Entry, e0.selector = sel → (populateWith c.eaexts c.defaultMime pi e0).selector = sel := by
+        intro e0 h0; rw [populateWith_selector, h0]
+      split
+      · split
+        · simp only; split <;> exact key _ rfl
+        · split <;> exact key _ rfl
+      · split <;> exact key _ rfl
 
 /-- what `childOf` records for a member, stated for an arbitrary selector -/
 theorem member_entry_spec (c : SiteCfg) (st : StatFn) (sel : Str) (e : Entry) (isf : Bool)
     (h : (match dispatch c st sel with
           | .notFound => none
-          | hd => (entryAt c st sel).map fun e => (e, hd == .file)) = some (e, isf)) :
+          | hd => (entryAt c st sel).map fun e => (e, hd.isFileHandler)) = some (e, isf)) :
     e.selector = sel ∧ serve c st sel ≠ .notFound ∧
     (isf = true → ∃ d, st sel = some (.file d) ∧ serve c st sel = .document d) ∧
-    (isf = false → serve c st sel = .menu) := by
-  have hsel : ∀ a, entryAt c st sel = some a → a.selector = sel := by
-    intro a ha
-    unfold entryAt at ha
-    cases hp : popAt c st sel with
-    | none => simp [hp] at ha
-    | some pi =>
-      simp only [hp, Option.map_some, Option.some.injEq] at ha
-      rw [← ha, populateWith_selector]
-      split <;> rfl
+    (isf = false → serve c st sel = .menu ∨ ∃ t, serve c st sel = .generated t) := by
+  have fileLike : ∀ hd : Handler, dispatch c st sel = hd → (hd = .file ∨ hd = .htmlFile) →
+      (entryAt c st sel).map (fun e => (e, hd.isFileHandler)) = some (e, isf) →
+      e.selector = sel ∧ serve c st sel ≠ .notFound ∧
+      (isf = true → ∃ d, st sel = some (.file d) ∧ serve c st sel = .document d) ∧
+      (isf = false → serve c st sel = .menu ∨ ∃ t, serve c st sel = .generated t) := by
+    intro hd hdd hk h
+    obtain ⟨a, ha, hpair⟩ := Option.map_eq_some_iff.mp h
+    obtain ⟨d, hst, hsv⟩ := dispatch_file_serves_document c st sel (by rcases hk with hk | hk <;> simp [hdd, hk])
+    have he : a = e := (Prod.mk.inj hpair).1
+    have hi : isf = true := by rw [← (Prod.mk.inj hpair).2]; rcases hk with hk | hk <;> simp [hk, Handler.isFileHandler]
+    subst he
+    exact ⟨entryAt_selector c st sel _ ha, by rw [hsv]; simp, fun _ => ⟨d, hst, hsv⟩, fun hf => by rw [hi] at hf; cases hf⟩
+  have menuLike : ∀ hd : Handler, dispatch c st sel = hd → (hd = .dir ∨ hd = .gophermapDir ∨ hd = .gophermapFile) →
+      (entryAt c st sel).map (fun e => (e, hd.isFileHandler)) = some (e, isf) →
+      e.selector = sel ∧ serve c st sel ≠ .notFound ∧
+      (isf = true → ∃ d, st sel = some (.file d) ∧ serve c st sel = .document d) ∧
+      (isf = false → serve c st sel = .menu ∨ ∃ t, serve c st sel = .generated t) := by
+    intro hd hdd hk h
+    obtain ⟨a, ha, hpair⟩ := Option.map_eq_some_iff.mp h
+    have he : a = e := (Prod.mk.inj hpair).1
+    have hi : isf = false := by
+      rw [← (Prod.mk.inj hpair).2]; rcases hk with hk | hk | hk <;> simp [hk, Handler.isFileHandler]
+    have hsv : serve c st sel = .menu := by
+      unfold serve; rcases hk with hk | hk | hk <;> simp [hdd, hk]
+    subst he
+    exact ⟨entryAt_selector c st sel _ ha, by rw [hsv]; simp, (fun ht => by rw [hi] at ht; cases ht), fun _ => Or.inl hsv⟩
   cases hd : dispatch c st sel with
   | notFound => rw [hd] at h; cases h
-  | file =>
-    rw [hd] at h
-    obtain ⟨a, ha, hpair⟩ := Option.map_eq_some_iff.mp h
-    obtain ⟨d, hst, hsv⟩ := dispatch_file_serves_document c st sel hd
-    have he : a = e := (Prod.mk.inj hpair).1
-    have hi : isf = true := by rw [← (Prod.mk.inj hpair).2]; decide
-    subst he
-    exact ⟨hsel _ ha, by rw [hsv]; simp, fun _ => ⟨d, hst, hsv⟩, fun hf => by rw [hi] at hf; cases hf⟩
-  | dir =>
+  | file => rw [hd] at h; exact fileLike _ hd (Or.inl rfl) h
+  | htmlFile => rw [hd] at h; exact fileLike _ hd (Or.inr rfl) h
+  | dir => rw [hd] at h; exact menuLike _ hd (Or.inl rfl) h
+  | gophermapDir => rw [hd] at h; exact menuLike _ hd (Or.inr (Or.inl rfl)) h
+  | gophermapFile => rw [hd] at h; exact menuLike _ hd (Or.inr (Or.inr rfl)) h
+  | url =>
     rw [hd] at h
     obtain ⟨a, ha, hpair⟩ := Option.map_eq_some_iff.mp h
     have he : a = e := (Prod.mk.inj hpair).1
-    have hi : isf = false := by rw [← (Prod.mk.inj hpair).2]; decide
-    have hsv : serve c st sel = .menu := by unfold serve; rw [hd]
+    have hi : isf = false := by rw [← (Prod.mk.inj hpair).2]; rfl
+    have hsv : serve c st sel = .generated (emit (urlRedirectSegs (urlOfSelector sel))) := by unfold serve; rw [hd]
     subst he
-    exact ⟨hsel _ ha, by rw [hsv]; simp, (fun ht => by rw [hi] at ht; cases ht), fun _ => hsv⟩
-  | gophermapDir =>
-    rw [hd] at h
-    obtain ⟨a, ha, hpair⟩ := Option.map_eq_some_iff.mp h
-    have he : a = e := (Prod.mk.inj hpair).1
-    have hi : isf = false := by rw [← (Prod.mk.inj hpair).2]; decide
-    have hsv : serve c st sel = .menu := by unfold serve; rw [hd]
-    subst he
-    exact ⟨hsel _ ha, by rw [hsv]; simp, (fun ht => by rw [hi] at ht; cases ht), fun _ => hsv⟩
-  | gophermapFile =>
-    rw [hd] at h
-    obtain ⟨a, ha, hpair⟩ := Option.map_eq_some_iff.mp h
-    have he : a = e := (Prod.mk.inj hpair).1
-    have hi : isf = false := by rw [← (Prod.mk.inj hpair).2]; decide
-    have hsv : serve c st sel = .menu := by unfold serve; rw [hd]
-    subst he
-    exact ⟨hsel _ ha, by rw [hsv]; simp, (fun ht => by rw [hi] at ht; cases ht), fun _ => hsv⟩
+    exact ⟨entryAt_selector c st sel _ ha, by rw [hsv]; simp, (fun ht => by rw [hi] at ht; cases ht), fun _ => Or.inr ⟨_, hsv⟩⟩
 
 /-- **A listed member is served.**  If a directory member contributes an entry to a listing,
     that entry's selector is `base/name`, a request for it is *not* answered not-found, and it
-    is a document (the file's own bytes) when the entry was produced by the file handler and a
-    menu otherwise. -/
+    is a document (the file's own bytes) when the entry was produced by a file handler and a
+    menu (or, for a `URL:` selector, the redirect page) otherwise. -/
 theorem listed_member_is_served (c : SiteCfg) (st : StatFn) (base name : Str) (k : Node) (e : Entry) (isf : Bool)
     (h : (childOf c st base name k).entry = some (e, isf)) :
     e.selector = base ++ [47] ++ name ∧ serve c st e.selector ≠ .notFound ∧
     (isf = true → ∃ d, st e.selector = some (.file d) ∧ serve c st e.selector = .document d) ∧
-    (isf = false → serve c st e.selector = .menu) := by
+    (isf = false → serve c st e.selector = .menu ∨ ∃ t, serve c st e.selector = .generated t) := by
   have := member_entry_spec c st (base ++ [47] ++ name) e isf h
   rw [this.1]
   exact ⟨rfl, this.2⟩
